@@ -1,6 +1,7 @@
 package sim
 
 import (
+	"math"
 	"fmt"
 	"strings"
 
@@ -90,18 +91,26 @@ func (m *ModelTracker) Anchored(rec *AnchoredRec) {
 	next, verdict, why := ref.Step(m.w.RefCfg, d.cur, tr, &rec.Meta)
 	if tr.From != 0 || tr.Until != 0 {
 		m.w.T.Count("window_points_checked", 1)
-		sg := func(a int64) int {
+		cmp := func(a, b int64) int {
 			switch {
-			case a < 0:
+			case a < b:
 				return -1
-			case a > 0:
+			case a > b:
 				return 1
 			}
 			return 0
 		}
 		t := int64(rec.Meta.Time)
-		m.w.T.Mark(fmt.Sprintf("win:%s:%d:%d:%d:%v:%v:%s", tr.AnchoredKind, sg(tr.From-t), sg(tr.Until-t), sg(tr.From+int64(m.w.RefCfg.MaxTimeDelta)-t),
-			tr.From == 0, tr.Until == 0, verdict))
+		dflt := 1 // from + delta beyond every int64
+		if du, ok := ref.DefaultUntil(tr.From, 0, m.w.RefCfg.MaxTimeDelta); ok {
+			dflt = cmp(du, t)
+		}
+		extreme := tr.From == math.MinInt64 || tr.From == math.MaxInt64 || tr.Until == math.MinInt64 || tr.Until == math.MaxInt64
+		m.w.T.Mark(fmt.Sprintf("win:%s:%d:%d:%d:%v:%v:%v:%s", tr.AnchoredKind, cmp(tr.From, t), cmp(tr.Until, t), dflt,
+			tr.From == 0, tr.Until == 0, extreme, verdict))
+		if extreme {
+			m.w.T.Probe("window_int64_extreme")
+		}
 	}
 	exp.Verdict, exp.Why = verdict, why
 	d.sig = append(d.sig, fmt.Sprintf("%s:%s:%s", tr.AnchoredKind, faultName(tr.Fault), verdict))
@@ -161,8 +170,15 @@ func (m *ModelTracker) checkChain(d *didModel) {
 	w := m.w
 	var updPred, recPred *AnchoredRec
 	for _, exp := range d.exps {
-		if exp.Skipped || exp.Verdict == "" || exp.Verdict == ref.Refused || !exp.Rec.Built.Honest {
-			if exp.Verdict != "" && exp.Verdict != ref.Refused && !exp.Rec.Built.Honest {
+		// a recover by the committed key whose delta alone is bad (missing, not hash-bound, invalid) stays a chain link
+		member := exp.Rec.Built.Honest
+		if f := exp.Rec.Built.Truth.Fault; !member && exp.Verdict == ref.Degraded && exp.Rec.Built.Truth.Kind == ref.Recover &&
+			(f == ref.FDeltaMissing || f == ref.FDeltaHash || f == ref.FDeltaInvalid) {
+			member = true
+			w.T.Probe("chain_degraded_recover_link")
+		}
+		if exp.Skipped || exp.Verdict == "" || exp.Verdict == ref.Refused || !member {
+			if exp.Verdict != "" && exp.Verdict != ref.Refused && !member {
 				// a hostile but accepted operation re-bases the chain; predecessors are unknown to this oracle
 				updPred, recPred = nil, nil
 				if exp.State.UpdCommit != "" && exp.Rec.Built.Truth.Kind != ref.Deactivate {
@@ -269,7 +285,7 @@ func (m *ModelTracker) windowProbes(tr *ref.Truth, am *ref.AnchorMeta) {
 	if tr.Until == t {
 		m.w.T.Probe("window_t_eq_until")
 	}
-	if tr.Until == 0 && tr.From+int64(m.w.RefCfg.MaxTimeDelta) == t {
+	if du, ok := ref.DefaultUntil(tr.From, 0, m.w.RefCfg.MaxTimeDelta); tr.Until == 0 && ok && du == t {
 		m.w.T.Probe("window_t_eq_from_plus_delta")
 	}
 }
